@@ -71,6 +71,7 @@ RawVal(d, r, j) == IF d.fs[j].len = VarLen THEN EncVarLen(Content(d, r, j), VarL
 Tmpl(d, id) == [id |-> id, count |-> Len(d.fs), fields |-> d.fs]
 OtherT == [id |-> 257, count |-> 1, fields |-> <<Spec9(2, 4)>>]
 TRecs(d) == IF d.two THEN <<OtherT, Tmpl(d, 256)>> ELSE <<Tmpl(d, 256)>>
+OtherRec == <<77, 78, 79, 80>>          \* with two templates the packet also carries a data set of the other one
 \* options templates: V9 - one 2-byte "interface" scope field, then the option fields;  IPFIX - the first field is the scope
 Scope9 == <<Spec9(2, 2)>>
 OT9(d) == [id |-> 256, scope_len |-> 4, opt_len |-> 4 * Len(d.fs), scope |-> Scope9, opts |-> d.fs]
@@ -86,12 +87,13 @@ MinSizeD(d) == MinSize(d) + (IF d.kind = "opts" /\ d.proto = "v9" THEN 2 ELSE 0)
 Tag(i) == <<0, i \div 65536, (i \div 256) % 256, i % 256>>
 UnTag(e) == e[2] * 65536 + e[3] * 256 + e[4]
 Enc(d, i) == IF d.proto = "v9"
-               THEN EncV9Hdr(2, [H9 EXCEPT !.seq = Tag(i)])
+               THEN EncV9Hdr(IF d.two THEN 3 ELSE 2, [H9 EXCEPT !.seq = Tag(i)])
                       \o (IF d.kind = "data" THEN EncV9TmplSet(TRecs(d), <<>>) ELSE EncV9OtmplSet(<<OT9(d)>>, <<>>))
                       \o EncSet(256, DataBody(d))
+                      \o (IF d.two THEN EncSet(257, OtherRec) ELSE <<>>)
                ELSE EncIpfixMsg([HX EXCEPT !.seq = Tag(i)],
                                 <<IF d.kind = "data" THEN EncIpfixTmplSet(TRecs(d), <<>>) ELSE EncIpfixOtmplSet(<<OTX(d)>>, <<>>),
-                                  EncSet(256, DataBody(d))>>)
+                                  EncSet(256, DataBody(d))>> \o (IF d.two THEN <<EncSet(257, OtherRec)>> ELSE <<>>))
 
 MCBuffers == {Enc(DescFromIndex(i), i) : i \in {n \in 0..(NumDesc - 1) : Admissible(DescFromIndex(n))}}
 DescOf(b) == DescFromIndex(UnTag(IF U16At(b, 1) = 9 THEN Slice(b, 13, 4) ELSE Slice(b, 9, 4)))
@@ -116,7 +118,8 @@ ExportItem(it) ==
 DecodeIsInverse ==
   Done => LET d == DescOf(call.buf)  out == call.cs.out
               vals(r) == [j \in 1..Len(d.fs) |-> Content(d, r, j)] IN
-          /\ Len(out) = 1 /\ out[1].k = d.proto /\ Len(out[1].sets) = 2
+          /\ Len(out) = 1 /\ out[1].k = d.proto /\ Len(out[1].sets) = (IF d.two THEN 3 ELSE 2)
+          /\ (d.two => out[1].sets[3].k = "data" /\ out[1].sets[3].id = 257 /\ out[1].sets[3].recs = << <<OtherRec>> >>)
           /\ out[1].sets[1].pad = <<>> /\ out[1].sets[2].id = 256 /\ out[1].sets[2].pad = Zeros(d.pad)
           /\ IF d.kind = "data"
                THEN /\ out[1].sets[1].k = "tmpl" /\ out[1].sets[1].recs = TRecs(d)
